@@ -129,6 +129,11 @@ def run_history(cfg, hist):
             elif e == "U":
                 P["w3"].requires_grad = True
                 frozen.discard("w3"); TP["w3"].requires_grad_(True)
+            elif e == "F":
+                # a trainable parameter is frozen in mid-training, possibly while it still holds a gradient (and momentum / moments):
+                # from here on it "stays fixed even under weight decay" whatever step, zero_grad and backward do around it
+                P["w1"].requires_grad = False
+                frozen.add("w1")
             elif e == "z":
                 opt.zero_grad()
             else:
@@ -171,7 +176,7 @@ def run_history(cfg, hist):
             rt, at = tol(k)
             hits = [st for (cand, st) in exp[k] if np.allclose(got[k], cand, rtol=rt, atol=at)]
             if not hits:
-                if k == "w3" and k in frozen: kind = "frozen-parameter-moved"
+                if k in frozen: kind = "frozen-parameter-moved"
                 elif k == "w4": kind = "foreign-parameter-moved"
                 elif e != "S": kind = "parameter-changed-outside-step"
                 else: kind = "wrong-update"
@@ -182,8 +187,8 @@ def run_history(cfg, hist):
                 for st in hits:
                     uniq[repr({a: (None if b is None else np.round(np.asarray(b, dtype=np.float64), 12).tolist()) for a, b in st.items()})] = st
                 alts[k] = list(uniq.values())
-            if ((k == "w3" and k in frozen) or k == "w4") and np.asarray(P[k].data).tobytes() != before[k]:
-                v("frozen-parameter-moved" if k == "w3" else "foreign-parameter-moved", f"{k} bytes changed after {prefix}")
+            if (k in frozen or k == "w4") and np.asarray(P[k].data).tobytes() != before[k]:
+                v("frozen-parameter-moved" if k in frozen else "foreign-parameter-moved", f"{k} bytes changed after {prefix}")
             if (id(P[k]), P[k].dtype, P[k].shape) != ident[k]:
                 v("parameter-identity-dtype-or-shape-changed", f"{k} after {prefix}: dtype {P[k].dtype}, shape {P[k].shape}")
             elif P[k].data is not storage[k] and not np.shares_memory(P[k].data, storage[k]):
@@ -226,6 +231,11 @@ def run(tier, seed):
     cases = [{"cfg": c, "history": "".join(h)} for c in cfgs for h in itertools.product(EVENTS, repeat=depth)]
     # long runs: one backward, then 80 consecutive steps (bias corrections that saturate, buffers that drift) for every configuration
     cases += [{"cfg": c, "history": "b" + "S" * 40 + "B" + "S" * 40} for c in cfgs]
+    # freezing in mid-training: every history of the same length with exactly one F (freeze w1) after at least one backward
+    for c in cfgs:
+        for h in itertools.product(EVENTS + "F", repeat=depth):
+            if h.count("F") == 1 and any(x in "Bb" for x in h[: h.index("F")]) and "S" in h[h.index("F"):]:
+                cases.append({"cfg": c, "history": "".join(h)})
     r = engine.run_cases(cases, judge)
     # keep, per (kind, cfg), only the shortest violating prefix
     best = {}
@@ -242,7 +252,7 @@ def run(tier, seed):
            "samples": r["samples"], "exhaustive": True, "depth": depth, "configurations": len(cfgs),
            "rule": f"{len(cfgs)} hyper-parameter configurations (SGD: momentum x dampening x nesterov x weight_decay x maximize, "
                    f"constructor-accepted only; Adam/AdamW: weight_decay x maximize x betas x eps) x ALL {5 ** depth} histories of "
-                   f"length {depth} over {{backward(L1), backward(L2), zero_grad, step, unfreeze w3}} (plus one 82-event run 'b S^40 B S^40' per configuration; every shorter history is a prefix and is "
+                   f"length {depth} over {{backward(L1), backward(L2), zero_grad, step, unfreeze w3}} (plus every history of that length with one mid-training freeze of w1 after a backward and before a step, and one 82-event run 'b S^40 B S^40' per configuration; every shorter history is a prefix and is "
                    "compared event by event): parameters w1 (float64, first gradient arrives late), w2 (float32, 2x2), w5 (0-d), frozen w3 and foreign w4; states = "
                    "(configuration, history prefix) pairs; after every event parameter values vs the transcribed PyTorch rules "
                    "(cross-validated against torch.optim at 1e-11), identity/dtype/shape/storage (4 configurations pass NumPy float64 scalars as hyper-parameters), frozen and foreign parameters byte-identical"}
